@@ -139,7 +139,7 @@ inline const std::vector<std::string>& init_urls() {
       "https://" EACUTE "sp.example/", "ws://h/", "wss://h:444/x", "ftp://u@h/d/f", "file:///C:/x/y", "file://host/s/f",
       "file:///", "a://h:1/p?q#f", "a://u:p@h/p", "a:///p", "a:/p/q", "a:/.//p", "a:p", "a:o p ", "a:o p ?q",
       "mailto:u@h?s=1#f", "blob:https://h/id", "http://h/?#", "a://h", "a://h?q", "http://h:0/", "https://h/a/../b",
-      "a:/", "a:", "http://h:1000/p", "a://h:10000", "file:///c:x", "file:///C:",
+      "a:/", "a:", "http://h:1000/p", "a://h:10000", "file:///c:x", "file:///C:", "blob:ws://h/p", "blob:ftp://h/", "blob:blob:https://h/x", "blob:file:///x", "blob:a://h/",
   };
   return u;
 }
